@@ -148,6 +148,8 @@ def run_check(check, tier="quick", seed=0, workers=None, replay=None, log=sys.st
     t_explore = time.time()
     budget_s = float(os.environ.get("VERIF_BUDGET_S", "0")) or check.budget_s(tier) if hasattr(check, "budget_s") else 0
     truncated = False
+    hung = False
+    wall_cap = float(os.environ.get("VERIF_WALL_CAP_S", "0")) or getattr(check, "wall_cap", {"quick": 900, "thorough": 5400})[tier]
     with cf.ProcessPoolExecutor(max_workers=workers, mp_context=ctx) as ex:
         running = set()
         while pending or running:
@@ -159,7 +161,15 @@ def run_check(check, tier="quick", seed=0, workers=None, replay=None, log=sys.st
             if not running:
                 truncated = bool(pending)
                 break
-            done, running = cf.wait(running, return_when=cf.FIRST_COMPLETED)
+            done, running = cf.wait(running, timeout=10, return_when=cf.FIRST_COMPLETED)
+            if time.time() - t_explore > wall_cap:
+                # watchdog: a stuck solver query or an exploding frontier must not hang the check
+                truncated = True
+                hung = True
+                for p in list(getattr(ex, "_processes", {}).values()):
+                    try: p.kill()
+                    except Exception: pass
+                break
             for f in done:
                 recs, rest, f_fns, f_models = f.result()
                 pending.extend(rest)
@@ -247,7 +257,7 @@ def run_check(check, tier="quick", seed=0, workers=None, replay=None, log=sys.st
     if unsupported and not check.tolerate_unsupported:
         inconclusive.append(f"{sum(unsupported.values())} paths ended in an unsupported construct")
     if stats["unknown"]: inconclusive.append(f"{stats['unknown']} solver queries returned unknown")
-    if truncated: inconclusive.append(f"exploration truncated at {stats['paths']} paths (bound {max_paths}, budget {budget_s}s)")
+    if truncated: inconclusive.append(f"exploration truncated at {stats['paths']} paths (bound {max_paths}, wall cap {wall_cap:.0f}s{', watchdog fired' if hung else ''})")
     if unconfirmed: inconclusive.append(f"{len(unconfirmed)} candidate counterexamples did not reproduce natively")
     if disagreements: inconclusive.append(f"{len(disagreements)} translator-validation disagreements")
     if isinstance(canary, str): inconclusive.append("vacuity canary: " + canary)
